@@ -655,9 +655,9 @@ func (c16Prop) Rule() string {
 }
 func (c16Prop) NumCases(tier string) int {
 	if tier == "thorough" {
-		return 300000
+		return 600000
 	}
-	return 10000
+	return 30000
 }
 
 var c16Shapes = []string{
@@ -665,6 +665,9 @@ var c16Shapes = []string{
 	`-%s`, `sum by (a) (-%s)`, `(%s)`, `max by (a) ((%s))`, `sum by (a) (%s + %s)`, `%s + on(a) group_left %s`, `topk by (a) (2, %s)`,
 	`quantile by (b) (0.5, %s)`, `histogram_quantile(0.9, %s)`, `clamp_min(%s, 1)`, `sum(max_over_time(%s[3m]))`, `count(%s > 2)`,
 	`avg by (a) (delta(%s[1m30s]))`, `2 * %s`, `min by (a) (2 * %s)`, `last_over_time(%s[5m])`,
+	// the same metric selected twice (select merging / selector pooling in play)
+	`%s - on(a, b, c) m0`, `m0 - on(a, b, c) %s`, `sum(%s) / sum(m0)`, `%s + on(a, b, c) %s`, `max by (a) (%s) - on(a) min by (a) (m0)`,
+	`m1 * on(a, b, c) %s`, `count(%s) + count(m1 offset 5m)`,
 }
 
 func (c16Prop) Gen(seed uint64, tier string, i int) Case {
@@ -768,8 +771,10 @@ func (c16Prop) Check(c Case) Outcome {
 		}
 	}
 	// (b) sufficiency of the hinted range under the case's optimizer set
-	full := RunEngine(ctx, NewStore(c.Dataset, StoreOpts{}), c.Engine, c.Query, c.Window)
-	pruned := RunEngine(ctx, NewStore(c.Dataset, StoreOpts{PruneToHints: true}), c.Engine, c.Query, c.Window)
+	// baseline: a storage that omits nothing (not even what lies outside the querier's range);
+	// pruned: a storage that keeps exactly what the hints ask for
+	full := RunEngine(ctx, NewStore(c.Dataset, StoreOpts{NoTrim: true}), c.Engine, c.Query, c.Window)
+	pruned := RunEngine(ctx, NewStore(c.Dataset, StoreOpts{NoTrim: true, PruneToHints: true}), c.Engine, c.Query, c.Window)
 	if d := Compare(pruned.Res, full.Res); d != nil {
 		if Excuse(c, pruned.Res, full.Res, d, &o) == "" && !InKnownClass(c, &o) {
 			o.Add("hints-insufficient:"+d.Rule, fmt.Sprintf("result changes when the storage drops samples outside [hints.Start, hints.End] (optimizers %q): %s\n  pruned: %s\n  full:   %s", c.Engine.Opt, d.Detail, pruned.Res, full.Res))
